@@ -17,6 +17,7 @@ var patchProfiles = []gen.Profile{
 	gen.PHostile,
 	gen.PHostile.With(func(p *gen.Profile) { p.Keys = append(append([]string{}, gen.KeysHostile...), gen.KeysNumberish...) }),
 	gen.PNumbers,
+	gen.PSyntaxy,
 }
 
 // unexpressible: the diff mentions a key JSON Pointer cannot carry
@@ -246,7 +247,7 @@ func init() {
 		Run: func(c *mon.Ctx, i int) {
 			// through the binaries: what the library renders is printed with status 1, what it
 			// refuses (number-like keys, "-", set paths) ends with status 2 and nothing on stdout
-			prof := patchProfiles[len(patchProfiles)-2] // hostile and number-like keys
+			prof := patchProfiles[5] // hostile and number-like keys
 			a, b := gen.Pair(c.R, prof)
 			var flags []string
 			var opts []jd.Option
